@@ -50,7 +50,9 @@ def run(ctx):
         ctx.bounds["patterns"] = r.distinct
         if not thorough:
             pats = [p for p in pats if rng.random() < 0.25]
-        lines += [dict(k="pat", name=v["name"], maxlen=3) for v in pats]
+        lines += [dict(k="pat", name=v["name"], maxlen=3, prefix="") for v in pats]
+        lines += [dict(k="pat", name=v["name"], maxlen=3, prefix=pre) for v in pats[::7] for pre in ("part0/kit12/adpars/", "a_component_name_that_is_long/")]
+        lines.append(dict(k="app2"))
         for cfg in ("PortTreeGen_flat4.cfg", "PortTreeGen_struct3.cfg" if thorough else "PortTreeGen_struct2.cfg"):
             tabs, r = ctx.vectors("PortTreeGen", cfg, "tables")
             ctx.bounds[cfg] = r.distinct
@@ -58,6 +60,8 @@ def run(ctx):
         g = treegen.Gen(ctx.seed)
         for i in range(3000 if thorough else 300):
             tb = g.table(rng.randint(1, 3), rng.choice([3, 6, 12, 24]))
+            if i % 3 == 0:      # port names on both sides of the small-string boundary and well beyond it
+                treegen.lengthen(tb, treegen.LONG_PREFIXES[(i // 3) % 3])
             lines.append(dict(k="tree", table=tb, addrs=treegen.addresses(rng, tb)))
         apps, r = ctx.vectors("AppGen", "AppGen_2.cfg", "scripts", timeout=1800)
         ctx.bounds["app_scripts"] = r.distinct
